@@ -80,17 +80,16 @@ func (m *MMap) Write(b []byte) (int, error) {
 
 func (m *MMap) Sync() error {
 	verifEvent("sync", m.file.Name(), nil, 0)
+	// 映射已被 ResetFileSize 解除且此后无读写, 所有数据已刷新
+	if m.activeMap == nil {
+		return nil
+	}
 	return m.activeMap.Flush()
 }
 
 func (m *MMap) Close() error {
 	verifEvent("sync", m.file.Name(), nil, 0)
-	if err := m.activeMap.Flush(); err != nil {
-		return err
-	}
-	if err := m.activeMap.Unmap(); err != nil {
-		return err
-	}
+	// ResetFileSize 负责刷新并解除映射(映射可能已被此前的 ResetFileSize 解除)
 	if err := m.ResetFileSize(); err != nil {
 		return err
 	}
